@@ -40,7 +40,7 @@ type kcfg struct {
 	exec string // inline | go
 	ws   bool
 	gaps []int // seconds slept before each request / message
-	p    int
+	p, d int
 }
 
 func (c kcfg) name() string {
@@ -100,14 +100,39 @@ func (w *kworld) kind() string {
 	return "http"
 }
 
+// clock fires timers while no exchange is in flight (the client sleeps or is done): that is
+// where an idle connection expires. A firing *during* an exchange (the deadline passes while the
+// request is being read, handled, answered) is offered at explicit points instead (maybeFire):
+// letting the clock thread run at every blocking point of the HTTP / WebSocket stack makes the
+// free-choice tree too large to finish.
 func (w *kworld) clock() {
 	vsched.SetDaemon()
-	vsched.Block("clock: no timer armed", func() bool { return vtime.Armed() > 0 })
+	vsched.Block("clock: nothing to fire", func() bool {
+		return vtime.Armed() > 0 && (w.sent == w.completed || w.closes > 0)
+	})
 	// ---- atomic
 	w.tick()
+	w.fireOne()
+	vsched.GoNamed("clock", w.clock)
+}
+
+// maybeFire is an explorer choice (a deviation): the virtual clock reaches the earliest pending
+// timer right here, in the middle of an exchange. Only the connection's read deadline can be
+// pending then (the client is waiting for the exchange to complete).
+func (w *kworld) maybeFire(where string) {
+	if vtime.Armed() == 0 || w.closes > 0 {
+		return
+	}
+	if vsched.Choose(2, "fire@"+where) == 1 {
+		w.tick()
+		w.counters["fire_offered_mid_exchange"]++
+		w.fireOne()
+	}
+}
+
+func (w *kworld) fireOne() {
 	pre := snapTimers(w.conn)
 	if !vtime.FireNext() {
-		vsched.GoNamed("clock", w.clock)
 		return
 	}
 	at := vtime.VNow()
@@ -144,13 +169,14 @@ func (w *kworld) clock() {
 		w.orphanF++
 		w.counters["orphan_timer_fired"]++
 	}
-	vsched.GoNamed("clock", w.clock)
 }
 
 // activityStart runs in the HTTP handler / WebSocket message callback.
 func (w *kworld) activityStart() {
 	w.tick()
 	w.started++
+	w.startedAt = vtime.VNow()
+	w.maybeFire("handler")
 	w.startedAt = vtime.VNow()
 }
 
@@ -240,14 +266,22 @@ func kbody(c kcfg) func() {
 			Handler: http.HandlerFunc(func(rw http.ResponseWriter, r *http.Request) {
 				w.activityStart()
 				if r.URL.Path == "/ws" {
+					// from here on the deadline may already be the WebSocket one
+					if t := vtime.VNow().Add(wsKeepalive); t.Before(w.lo) {
+						w.lo = t
+					}
 					if _, err := up.Upgrade(rw, r, nil); err != nil {
-						w.failf("harness|websocket upgrade failed: %v", err)
+						if closed, _ := w.conn.IsClosed(); !closed {
+							w.failf("harness|websocket upgrade failed on an open connection: %v", err)
+						}
+						w.counters["upgrade_lost_race_with_close"]++
 						return
 					}
 					// from here on the WebSocket keep-alive time applies
 					w.tick()
 					w.upgraded = true
 					w.ka = wsKeepalive
+					w.maybeFire("upgraded")
 					return
 				}
 				_, _ = rw.Write([]byte("ok"))
@@ -276,10 +310,15 @@ func kbody(c kcfg) func() {
 			return
 		}
 		vsched.GoNamed("client", func() {
+			// one exchange at a time: the client waits until the server has processed what it sent
+			// (or the connection was closed) before it sleeps again
 			send := func(b []byte) {
 				w.tick()
 				w.sent++
 				w.peer.WriteAll(b)
+				w.maybeFire("sent")
+				vsched.Block("client: exchange in flight", func() bool { return w.completed >= w.sent || w.closes > 0 })
+				w.tick()
 			}
 			if c.ws {
 				send(upgradeRequest())
@@ -361,30 +400,40 @@ func keepaliveScenarios(tier string) []weighted {
 		for i := 0; i < c.p; i++ {
 			weight *= 4
 		}
-		out = append(out, weighted{&vkit.Scenario{Name: c.name(), Body: kbody(c), Check: check, P: c.p,
+		out = append(out, weighted{&vkit.Scenario{Name: c.name(), Body: kbody(c), Check: check, P: c.p, D: c.d,
 			Opts:     vsched.Options{Horizon: 60000},
 			Counters: func() map[string]int { return lastCounters }, Outcome: func() string { return lastOutcome },
 			NonTrivial: func(m map[string]int) bool { return m["timers_fired"] > 0 }}, weight})
 	}
-	gapSet := []int{0, 3, 7, 8}
 	maxLen := 2
 	if thorough {
-		gapSet = []int{0, 3, 6, 7, 8}
 		maxLen = 3
 	}
-	var glists [][]int
-	var rec func(cur []int)
-	rec = func(cur []int) {
-		glists = append(glists, append([]int(nil), cur...))
-		if len(cur) == maxLen {
-			return
+	for _, ws := range []bool{false, true} {
+		// gaps: shorter than, equal to (tie between the client's wake-up and the deadline) and
+		// longer than the keep-alive time that applies (HTTP 7 s, WebSocket 4 s)
+		gapSet := []int{0, 3, 7, 8}
+		if thorough {
+			gapSet = []int{0, 3, 6, 7, 8}
 		}
-		for _, g := range gapSet {
-			rec(append(append([]int(nil), cur...), g))
+		if ws {
+			gapSet = []int{0, 2, 4, 5}
+			if thorough {
+				gapSet = []int{0, 2, 3, 4, 5}
+			}
 		}
-	}
-	rec(nil)
-	for _, ws := range []bool{false} {
+		var glists [][]int
+		var rec func(cur []int)
+		rec = func(cur []int) {
+			glists = append(glists, append([]int(nil), cur...))
+			if len(cur) == maxLen {
+				return
+			}
+			for _, g := range gapSet {
+				rec(append(append([]int(nil), cur...), g))
+			}
+		}
+		rec(nil)
 		for _, m := range ekit.Modes {
 			for _, e := range []string{"go"} {
 				for _, gl := range glists {
@@ -398,7 +447,11 @@ func keepaliveScenarios(tier string) []weighted {
 					if thorough {
 						p++
 					}
-					add(kcfg{mode: m, exec: e, ws: ws, gaps: gl, p: p})
+					d := 1
+					if thorough {
+						d = 2
+					}
+					add(kcfg{mode: m, exec: e, ws: ws, gaps: gl, p: p, d: d})
 				}
 			}
 		}
